@@ -461,3 +461,73 @@ func TestPruningSelfCheck(t *testing.T) {
 		t.Logf("note: caching did not reduce executions (%d vs %d)", s2.Execs, s1.Execs)
 	}
 }
+
+// TestRWMutexWriterPreference: sync.RWMutex blocks NEW readers as soon as a writer waits, so a
+// thread that read-locks twice deadlocks with a writer arriving in between. The shim models the
+// announcement of the writer as a step of its own: found with one preemption, not with zero; the
+// twin that read-locks once is clean; TryLock / TryRLock follow the model.
+func TestRWMutexWriterPreference(t *testing.T) {
+	nested := func(x *sched.Exec) {
+		var m vsync.RWMutex
+		var wg vsync.WaitGroup
+		wg.Add(2)
+		sched.Go(func() { defer wg.Done(); m.RLock(); m.RLock(); m.RUnlock(); m.RUnlock() })
+		sched.Go(func() { defer wg.Done(); m.Lock(); m.Unlock() })
+		wg.Wait()
+	}
+	if st, _ := explore(t, "rw-nested", 0, 0, false, nested, nil); st.Deadlocks != 0 {
+		t.Fatal("deadlock with 0 preemptions?")
+	}
+	st, r := explore(t, "rw-nested", 1, 0, false, nested, nil)
+	if st.Deadlocks == 0 || !has(r, "deadlock") {
+		t.Fatal("writer-preference deadlock (RLock; writer arrives; RLock) not found")
+	}
+	flat := func(x *sched.Exec) {
+		var m vsync.RWMutex
+		var wg vsync.WaitGroup
+		n := 0
+		wg.Add(3)
+		sched.Go(func() { defer wg.Done(); m.RLock(); _ = n; m.RUnlock(); m.RLock(); _ = n; m.RUnlock() })
+		sched.Go(func() { defer wg.Done(); m.RLock(); _ = n; m.RUnlock() })
+		sched.Go(func() { defer wg.Done(); m.Lock(); n++; m.Unlock() })
+		wg.Wait()
+		if n != 1 {
+			x.Fail("rw|lost", "n=%d", n)
+		}
+	}
+	if st, r := explore(t, "rw-flat", 3, 0, false, flat, nil); st.Deadlocks != 0 || len(r.Keys()) != 0 {
+		t.Fatalf("false finding on the non-nested twin: %v", r.Keys())
+	}
+	try := func(x *sched.Exec) {
+		var m vsync.RWMutex
+		var wg vsync.WaitGroup
+		var got [2]bool
+		wg.Add(2)
+		sched.Go(func() {
+			defer wg.Done()
+			if m.TryLock() {
+				got[0] = true
+				sched.Yield("holding", &m)
+				m.Unlock()
+			}
+		})
+		sched.Go(func() {
+			defer wg.Done()
+			if m.TryRLock() {
+				got[1] = true
+				sched.Yield("reading", &m)
+				m.RUnlock()
+			}
+		})
+		wg.Wait()
+		if !got[0] && !got[1] {
+			x.Fail("rw|try", "both Try calls failed")
+		}
+	}
+	outc := map[string]bool{}
+	st, r = explore(t, "rw-try", 2, 0, true, try, func(x *sched.Exec) string { return "" })
+	_ = outc
+	if st.Deadlocks != 0 || len(r.Keys()) != 0 {
+		t.Fatalf("TryLock/TryRLock: %v", r.Keys())
+	}
+}
